@@ -449,6 +449,46 @@ func c08ephemeral(c *an.Ctx) {
 			}
 		}
 		c.Check(hasEph && hasZero, fn, "auto-delete once in a goroutine", g.Pos(), "", "auto-delete is not restricted to `count == 0 && ephemeral`: durable objects or objects with consumers can be deleted")
+		// the count is len(registry) read after the delete, inside the same write-lock hold
+		mapName := map[string]string{"Channel": "clients", "Topic": "channelMap"}[spec.typ]
+		lockClass := spec.typ + ".RWMutex"
+		mapF := c.P.Field("nsqd", spec.typ, mapName)
+		fresh := false
+		la := c.P.Locks()
+		for _, f := range an.FactsAt(g.Block()) {
+			cmp, ok := f.AsCmp()
+			if !ok || cmp.Op != token.EQL {
+				continue
+			}
+			if k, isC := an.ConstInt(cmp.Y); !isC || k != 0 {
+				continue
+			}
+			for _, o := range an.Origins(cmp.X) {
+				lc, ok := o.(*ssa.Call)
+				if !ok {
+					continue
+				}
+				a := lenArgOf(lc)
+				if a == nil || !isLoadOfField(a, mapF) {
+					continue
+				}
+				must, _ := la.Fns[fn].At(lc)
+				if !must.Holds(lockClass, "", true) {
+					continue
+				}
+				// a delete on the same map earlier in the same block (same critical section)
+				for _, x := range lc.Block().Instrs {
+					if x == ssa.Instruction(lc) {
+						break
+					}
+					if dc, ok := isBuiltinCall(x, "delete"); ok && isLoadOfField(dc.Call.Args[0], mapF) {
+						fresh = true
+					}
+				}
+			}
+		}
+		c.Check(fresh, fn, "auto-delete decided on the count after the unlink", g.Pos(), "",
+			"the `count == 0` that triggers the ephemeral auto-delete is not len("+mapName+") read after the delete inside the same write-lock hold: two overlapping removals can both see 'one left' (nobody deletes the empty ephemeral object) or delete an object that still has members")
 		// the closure calls deleteCallback on the same object
 	}
 	// 3. GetTopic pre-creation skips #ephemeral names
